@@ -107,6 +107,9 @@ import E3nnVerif.Generated.TP.M008
 import E3nnVerif.Generated.TP.M009
 import E3nnVerif.Generated.TP.M010
 import E3nnVerif.Generated.TP.M007
+import E3nnVerif.Generated.TP.M011
+import E3nnVerif.Generated.TP.M012
+import E3nnVerif.Generated.TP.M013
 import E3nnVerif.Generated.TP.R000
 import E3nnVerif.Generated.TP.R001
 import E3nnVerif.Generated.TP.R002
@@ -225,6 +228,9 @@ def registry : List (String × Cfg × List Node) := [
   ("M009", M009.cfg, M009.prog),
   ("M010", M010.cfg, M010.prog),
   ("M007", M007.cfg, M007.prog),
+  ("M011", M011.cfg, M011.prog),
+  ("M012", M012.cfg, M012.prog),
+  ("M013", M013.cfg, M013.prog),
   ("R000", R000.cfg, R000.prog),
   ("R001", R001.cfg, R001.prog),
   ("R002", R002.cfg, R002.prog),
